@@ -345,6 +345,12 @@ func emitUnits(a *hlib.Args, e *hlib.Emitter, r *hlib.Rng) {
 	e.Emit(runUnit(r, 1, []candJ{{Q: 1, U: maxU32, W: 0}, {Q: 1, U: maxU32 - 1, W: 1}}, "corner"))
 	e.Emit(runUnit(r, 1, []candJ{{Q: 1, U: 0, W: 1}}, "corner"))
 	e.Emit(runUnit(r, 3, []candJ{{Q: 1, U: 0, W: 7}, {Q: 1, U: 5, W: 0}, {Q: 28, U: maxU32, W: 0}}, "corner"))
+	// exact keys closer than float64 resolution (relative 2.7e-20 / 5e-20): the
+	// float64 keys are equal, the earlier record wins; no order claim is made
+	for _, m := range []int{1, 2} {
+		e.Emit(runUnit(r, m, []candJ{{Q: 1, U: maxU32 - 1, W: 1}, {Q: 1, U: maxU32 - 2, W: 2}, {Q: 1, U: 7, W: 1}}, "nearkeys"))
+		e.Emit(runUnit(r, m, []candJ{{Q: 1, U: maxU32 - 2, W: 8}, {Q: 1, U: maxU32 - 1, W: 4}, {Q: 1, U: maxU32 - 1, W: maxU32}, {Q: 1, U: maxU32 - 2, W: maxU32}}, "nearkeys"))
+	}
 	// exhaustive small part: all sequences of length <= 3 (quick: over 6 symbols)
 	// / <= 4 (thorough: over 9 symbols) of A candidates (draw, weight), max 1 and 2
 	type sym struct{ u, w uint32 }
